@@ -7,6 +7,7 @@ import pandas as pd
 from reamber.base.Property import list_props
 from reamber.base.lists.notes.HoldList import HoldList
 from reamber.quaver.QuaHold import QuaHold
+from reamber.quaver.lists.QuaTimedList import QuaTimedList
 from reamber.quaver.lists.notes.QuaNoteList import QuaNoteList
 
 
@@ -14,7 +15,7 @@ from reamber.quaver.lists.notes.QuaNoteList import QuaNoteList
 class QuaHoldList(HoldList[QuaHold], QuaNoteList[QuaHold]):
     @staticmethod
     def from_yaml(dicts: List[Dict[str]]) -> QuaHoldList:
-        df = pd.DataFrame(dicts)
+        df = QuaTimedList._to_frame(dicts, ("StartTime", "Lane", "EndTime"))
         # Quaver omits a StartTime of 0
         if "StartTime" not in df:
             df["StartTime"] = 0
